@@ -1286,7 +1286,13 @@ fn random_case(r: &mut Rng, search: bool, pair_summary: bool) -> (Case, &'static
         _ => r.range(10, 30),
     } as usize;
     let (op, fam) = if search {
-        let w = gen_walk(r, nv, &edges, len.min(8));
+        let mut w = gen_walk(r, nv, &edges, len.min(12).max(3));
+        for _ in 0..6 {
+            if edges[w[0]].0 != edges[*w.last().unwrap()].1 {
+                break;
+            }
+            w = gen_walk(r, nv, &edges, len.min(12).max(3));
+        }
         let src = edges[w[0]].0;
         let dst = edges[*w.last().unwrap()].1;
         let alg = *r.pick(&["dijkstra", "astar", "via2", "via3"]);
